@@ -15,9 +15,9 @@ def textCovered : List String :=
     | none => false)).map (·.1)
 
 theorem text_covered_types :
-    textCovered = ["AFSDB", "AVC", "CDNSKEY", "CDS", "CNAME", "DHCID", "DLV", "DNAME", "DNSKEY", "DS", "EID", "GID", "KEY", "KX", "LP", "MB", "MD", "MF", "MG",
+    textCovered = ["AFSDB", "AVC", "CDNSKEY", "CDS", "CNAME", "DHCID", "DLV", "DNAME", "DNSKEY", "DS", "EID", "GID", "HINFO", "ISDN", "KEY", "KX", "LP", "MB", "MD", "MF", "MG",
       "MINFO", "MR", "MX", "NIMLOC", "NINFO", "NS", "NSAPPTR", "OPENPGPKEY", "PTR", "PX", "RESINFO", "RKEY", "RP", "RT", "SOA", "SPF", "SRV",
-      "SSHFP", "TA", "TALINK", "TLSA", "TXT", "UID", "X25", "ZONEMD"] := by
+      "SSHFP", "TA", "TALINK", "TLSA", "TXT", "UID", "UINFO", "X25", "ZONEMD"] := by
   decide
 
 theorem text_covered_all :
@@ -46,6 +46,8 @@ theorem fits_exist (P Q : List TStep) (h : matchPlans P Q = true) : ∃ vals val
     · exact ⟨.s (presentOf []), ⟨[], by decide, rfl⟩⟩
   fun_induction matchPlans P Q
   · exact ⟨_, _, Fits.txt [] (by simp)⟩
+  · exact ⟨_, _, Fits.pair [] [] (by simp) (by simp)⟩
+  · exact ⟨_, _, Fits.first [] (by simp)⟩
   · exact ⟨_, _, Fits.rest _ _ [65] ⟨by simp, by decide⟩⟩
   · exact ⟨_, _, Fits.tok _ [65] ⟨by simp, by decide⟩⟩
   · rename_i p q _
